@@ -137,3 +137,7 @@ FINDINGS += [
 FINDINGS += [
  K("C07", 'C07 Encoder.BytesWritten miscounts a failed binary.Write', 'Encoder.BytesWritten is not the number of bytes the writer accepted when a Write issued through binary.Write fails (binary.Write drops the count): a failed write of a uint32 length prefix (encode / encodeRaw of []G1Affine, []G2Affine, [][]fr.Element, [][][]fr.Element; fr/fp.Vector.WriteTo for []fr.Element, fr.Vector, ...) of which the writer accepted 1..3 bytes is not counted at all, a failed write of a fixed-size integer (default case, uint8..uint64) is counted in full although only part of it was accepted. The error itself is reported. Only calls annotated `<accepted>!-a@4:a` (a in 1..3) or `<accepted>!+(len-a)@len:a` (len in 1,2,4,8) match; the other calls of the line must be plain numbers (compared exactly on lines without such a call) Not repaired: the exact count needs every binary.Write of marshal.go (10 packages + template) and the 0-on-error return of Vector.WriteTo (23 packages + template) rewritten; the error itself is always reported.', '^C07 sencn ', '^n=(?:(?:[0-9a-f]+|[0-9a-f]+!-([123])@4:\\1|[0-9a-f]+!\\+(?:1@1:0|2@2:0|1@2:1|4@4:0|3@4:1|2@4:2|1@4:3|8@8:0|7@8:1|6@8:2|5@8:3|4@8:4|3@8:5|2@8:6|1@8:7))(?:,|$))+$', '^n=[0-9a-f,]*$', 'ecc/*/marshal.go encode / encodeRaw (binary.Write of the slice length; default case enc.n += int64(n) on error), field/*/vector.go WriteTo (return 0, err)', 'C07 sencn bn254 0 2 frs:1  (go: n=2!-2@4:2, model: n=2);  C07 sencn bn254 0 3 u64:1  (go: n=3!+5@8:3, model: n=3)'),
 ]
+
+FINDINGS += [
+ F("C10", "C10 Domain.ReadFrom keeps the receiver's tables when the source has no precomputation", "31f68a3", "ReadFrom of a domain serialised WithoutPrecompute into a receiver that already held tables left the old twiddles / coset tables in place: CosetTable(), CosetTableInv(), Twiddles(), TwiddlesInv() returned the previous domain's tables (other shift, other size) with a nil error (found by the readintotab ops added for seed C10r3-1)", "C10 readintotab 8 5:1:7:n koalabear 7f000001 6832fe4a 3 dif 1 0 0 3 0 f017,20b6,aef6,a097,bc41,91af,58e9,82d   (Go: stale x4 before the repair; model: err x4)", "ecc/*/fr/fft/domain.go, field/*/fft/domain.go ReadFrom"),
+]
